@@ -54,6 +54,10 @@ theorem MarKind.of_rel {k marshalM} (h : ∀ v bs v2, marshalM v = .ok (bs, v2) 
 theorem LenKind.of_same {k} (l : UInt16) : LenKind k (fun v => same l v) :=
   fun v l' v1 hk h => by rw [(same_ok _ _ _ _ h).2]; exact hk
 
+theorem HelloElemVersionBitmap.marshalM_kind : MarKind "HelloElemVersionBitmap" HelloElemVersionBitmap.marshalM :=
+  MarKind.of_rel fun v bs v2 h => by
+    obtain ⟨_, _, _, e1, e2⟩ := HelloElemVersionBitmap.marshalM_shape v bs v2 h
+    subst e1; subst e2; rfl
 theorem Hello.lenM_kind : LenKind "Hello" Hello.lenM := by kind_tac Hello.lenM
 theorem Hello.marshalM_kind : MarKind "Hello" Hello.marshalM := by kind_tac Hello.marshalM
 theorem Bucket.lenM_kind : LenKind "Bucket" Bucket.lenM := by kind_tac Bucket.lenM
@@ -148,7 +152,8 @@ theorem kindsHeader_ok : ∀ p ∈ kindsHeader, KindOK p.1 p.2 := by
   rcases hp with rfl | rfl | rfl | rfl
   · exact KindOK.of_pure header_pure
   · exact KindOK.of_pure helloElemHeader_pure
-  · exact KindOK.of_pure helloElemVersionBitmap_pure
+  · exact ⟨helloElemVersionBitmap_repeatable, LenKind.of_pure helloElemVersionBitmap_len_pure,
+      HelloElemVersionBitmap.marshalM_kind⟩
   · exact ⟨hello_repeatable, Hello.lenM_kind, Hello.marshalM_kind⟩
 
 theorem kindsMatch_ok : ∀ p ∈ kindsMatch, KindOK p.1 p.2 := by
